@@ -220,11 +220,26 @@ def _tree_tokens(xml: bytes):
     return toks
 
 
+def _snap_spec(sn: dict) -> str:
+    """one snapshot of the generated table as a `SnapSpec` of the Lean writer (Hv/MetaEnc.lean)"""
+    x = bytes.fromhex(sn["xraw"])
+    n = len(x)
+    q = lambda k: str(int.from_bytes(x[8 * k:8 * k + 8], "big"))     # noqa: E731
+    extra = "n" if n == 0 else f"a:{q(0)}:{q(1)}" if n == 16 else f"b:{q(0)}:{q(1)}:{q(2)}" if n == 24 else \
+        f"m:{q(0)}:{q(1)}:{q(2)}:{x[24:].hex() or '-'}"
+    return ",".join([str(sn["l1_table_offset"]), str(sn["l1_size"]), str(sn["date_sec"]), str(sn["date_nsec"]), str(sn["vm_clock_nsec"]),
+                     str(sn["vm_state_size"]), extra, sn["id"].encode().hex() or "-", sn["name"].encode().hex() or "-"])
+
+
 def model_lines(case, built):
     fam = built.info["fam"]
     fl = core.file_lines(built.files)
     if fam == "qcow2":
-        return fl + [f"meta.qcow2 img {'data' if 'data' in built.files else '-'} {'b' if 'backing' in built.files else '-'}"]
+        pre = []
+        st = built.info.get("snap_table")
+        if st:
+            pre = [f"meta.snapenc img {st['off']} " + " ".join(_snap_spec(sn) for sn in st["snaps"])]
+        return fl + pre + [f"meta.qcow2 img {'data' if 'data' in built.files else '-'} {'b' if 'backing' in built.files else '-'}"]
     if fam == "vmdk-text":
         return [f"meta.desc {built.raw['text'].hex() or '0a'}"]
     if fam == "hdd":
@@ -258,7 +273,14 @@ def model_parse(case, built, out):
             else:
                 res.append(t)
         toks = res
-    return {"answers": toks, "wf": True, "raw": line[:300]}
+    res = {"answers": toks, "wf": True, "raw": line[:300]}
+    if built.info.get("snap_table") and len(out) >= 2 and out[0].startswith("ok "):
+        # the generated table IS `encodeSnaps specs` (hypotheses of snapshot_table_roundtrip hold on this file): the evaluated
+        # instance of the theorem's conclusion must hold; a generated table outside the writer's image is a harness defect
+        hyp, rt = out[0].split(" ")[1:3]
+        res["spec_eq_model"] = (hyp == "1" and rt == "1")
+        res["spec"] = out[0]
+    return res
 
 
 def nontrivial(case, built, model):
